@@ -30,6 +30,7 @@ type c13case struct {
 	DotEnv  map[string]string `json:"dotenv"`  // .env file next to the spokfile
 	Lits    [][2]string       `json:"lits"`    // literal text before/after each reference
 	FromSub bool              `json:"from_subdir"`
+	Redef   map[string]string `json:"redefined"` // string variables given a new value between the two tasks
 }
 
 func (k c13case) key() string { b, _ := json.Marshal(k); return string(b) }
@@ -113,6 +114,14 @@ func c13Gen(r *core.Rng) c13case {
 		k.DotEnv["UNRELATED_DOTENV"] = "u2"
 	}
 	k.FromSub = r.Chance(25)
+	k.Redef = map[string]string{}
+	if failAt < 0 {
+		for _, v := range k.Vars {
+			if r.Chance(30) {
+				k.Redef[v.Name] = c13Value(r) + "!"
+			}
+		}
+	}
 	return k
 }
 
@@ -139,6 +148,22 @@ func (k c13case) text() string {
 	}
 	b.WriteString("    printf '%s\\n' done\n")
 	b.WriteString("}\n")
+	if len(k.Redef) > 0 {
+		// the same names get new values, then a second task with the very same command lines
+		b.WriteString("\n")
+		for _, v := range k.Vars {
+			if nv, ok := k.Redef[v.Name]; ok {
+				fmt.Fprintf(&b, "%s := \"%s\"\n", v.Name, nv)
+			}
+		}
+		b.WriteString("\ntask showb() {\n")
+		for i, v := range k.Vars {
+			fmt.Fprintf(&b, "    printf '%%s\\n' '%s{{.%s}}%s'\n", k.Lits[i][0], v.Name, k.Lits[i][1])
+			fmt.Fprintf(&b, "    printf '%%s\\n' \"$%s\"\n", v.Name)
+		}
+		b.WriteString("    printf '%s\\n' done\n")
+		b.WriteString("}\n")
+	}
 	return b.String()
 }
 
@@ -193,7 +218,11 @@ func c13Judge(c *core.Ctx, k c13case, res *core.ShardResult) (vs []core.Violatio
 			hasFail = true
 		}
 	}
-	invRun := run("--json", "show")
+	runArgs := []string{"--json", "show"}
+	if len(k.Redef) > 0 {
+		runArgs = append(runArgs, "showb")
+	}
+	invRun := run(runArgs...)
 	invVars := run("--vars")
 	for _, inv := range []core.Invocation{invRun, invVars} {
 		if inv.Crashed() || inv.Race || inv.TimedOut {
@@ -218,11 +247,45 @@ func c13Judge(c *core.Ctx, k c13case, res *core.ShardResult) (vs []core.Violatio
 		return
 	}
 	var jr []jsonResult
-	if err := json.Unmarshal([]byte(strings.TrimSpace(invRun.Stdout)), &jr); err != nil || len(jr) != 1 {
+	want := 1
+	if len(k.Redef) > 0 {
+		want = 2
+	}
+	if err := json.Unmarshal([]byte(strings.TrimSpace(invRun.Stdout)), &jr); err != nil || len(jr) != want {
 		bad("run-report", "unexpected --json output: %v %s", err, core.Trunc(invRun.Stdout, 300))
 		return
 	}
-	cmds := jr[0].Results
+	byTask := map[string]jsonResult{}
+	for _, r := range jr {
+		byTask[r.Task] = r
+	}
+	cmds := byTask["show"].Results
+	if len(k.Redef) > 0 {
+		// the second task, defined after the redefinitions, sees the new values in its templates and in
+		// its environment; the first task's templates saw the values defined before it (its environment
+		// is not judged there: which of the two values it should hold is not stated)
+		later := byTask["showb"].Results
+		if len(later) != 2*len(k.Vars)+1 {
+			bad("run-report", "%d command results for showb, want %d", len(later), 2*len(k.Vars)+1)
+			return
+		}
+		for i, v := range k.Vars {
+			nv, ok := k.Redef[v.Name]
+			if !ok {
+				nv = k.expect(v, cwd)
+			}
+			wantCmd := fmt.Sprintf("printf '%%s\\n' '%s%s%s'", k.Lits[i][0], nv, k.Lits[i][1])
+			if later[2*i].Cmd != wantCmd {
+				bad("template-substitution", "variable %s was redefined as %q before task showb, whose command is %q, want %q", v.Name, nv, later[2*i].Cmd, wantCmd)
+				return
+			}
+			if later[2*i+1].Stdout != nv+"\n" {
+				bad("environment-has-spokfile-value", "variable %s was redefined as %q before task showb, $%s there is %q", v.Name, nv, v.Name, strings.TrimSuffix(later[2*i+1].Stdout, "\n"))
+				return
+			}
+		}
+		res.Count("redefinition_cases", 1)
+	}
 	if len(cmds) != 2*len(k.Vars)+1 {
 		bad("run-report", "%d command results, want %d", len(cmds), 2*len(k.Vars)+1)
 		return
@@ -241,7 +304,7 @@ func c13Judge(c *core.Ctx, k c13case, res *core.ShardResult) (vs []core.Violatio
 			bad("text-reaches-shell-unchanged", "variable %s: the shell printed %q for %q", v.Name, tpl.Stdout, k.Lits[i][0]+want+k.Lits[i][1])
 			return
 		}
-		if envc.Stdout != want+"\n" {
+		if _, redefined := k.Redef[v.Name]; !redefined && envc.Stdout != want+"\n" {
 			bad("environment-has-spokfile-value", "variable %s (%s) = %q but $%s in the command's environment is %q (ambient %q, .env %q)", v.Name, v.Kind, want, v.Name, strings.TrimSuffix(envc.Stdout, "\n"), k.Ambient[v.Name], k.DotEnv[v.Name])
 			return
 		}
@@ -273,6 +336,9 @@ func c13Judge(c *core.Ctx, k c13case, res *core.ShardResult) (vs []core.Violatio
 	}
 	for _, v := range k.Vars {
 		want := k.expect(v, cwd)
+		if nv, ok := k.Redef[v.Name]; ok {
+			want = nv
+		}
 		got, ok := listed[v.Name]
 		if !ok || strings.TrimSpace(got) != strings.TrimSpace(want) {
 			bad("vars-lists-value", "--vars shows %q for %s, want %q (output %q)", got, v.Name, want, core.Trunc(invVars.Stdout, 400))
